@@ -439,6 +439,14 @@ def replay(ctx, case):
     cssutils, _ = core.import_repo()
     mon = Monitor(ctx, cssutils)
     try:
+        if case.get('kind') == 'cycle':
+            g = {'a.css': '@import "b.css";a{}', 'b.css': '@import "a.css";b{}'}
+
+            def fetcher(url):
+                return ('utf-8', g[url.rsplit('/', 1)[-1]].encode())
+
+            mon.run(g['a.css'], href='http://h/d/a.css', fetcher=fetcher, check_steps=False)
+            return
         if case.get('kind') == 'sweep':
             fn, kmax = FAMILIES[case['family']]
             text = fn(case['k'])
